@@ -6,7 +6,7 @@ import Shentu.Proofs.ShieldLimitLemmas
   The specification predicates below are written from the property text, not from the model's code.
 -/
 namespace Shentu.Props.C06
-open Shentu Shentu.Shield
+open Shentu Shentu.Shield Shentu.Shield.Limit
 
 /-! ## specification vocabulary -/
 
